@@ -510,4 +510,5 @@ func c02(p *model.Prog, r *report.Result) {
 			r.Bad("C02.R5", fkey(fn, "cap", "len-vs-singleGopMaxFrameNum"), p.Pos(fn.Pos()), "no comparison of the GOP length with singleGopMaxFrameNum guards Gop.Feed: the per-GOP cap is not enforced")
 		}
 	}
+	c02r67(p, r)
 }
